@@ -23,6 +23,9 @@ import (
 
 // Encrypt a message using the given algorithm and key, supporting both symmetric and asymmetric ciphers.
 func Encrypt(plaintext []byte, algorithm string, key jwk.Key, nonce []byte, associatedData []byte) (ciphertext []byte, tag []byte, err error) {
+	if key == nil {
+		return nil, nil, ErrKeyTypeMismatch
+	}
 	// Note that this includes all constants defined in consts.go, but some algorithms are not supported (yet)
 	switch algorithm {
 	case Algorithm_A128CBC, Algorithm_A192CBC, Algorithm_A256CBC,
@@ -48,6 +51,9 @@ func Encrypt(plaintext []byte, algorithm string, key jwk.Key, nonce []byte, asso
 
 // Decrypt a message using the given algorithm and key, supporting both symmetric and asymmetric ciphers.
 func Decrypt(ciphertext []byte, algorithm string, key jwk.Key, nonce []byte, tag []byte, associatedData []byte) (plaintext []byte, err error) {
+	if key == nil {
+		return nil, ErrKeyTypeMismatch
+	}
 	// Note that this includes all constants defined in consts.go, but some algorithms are not supported (yet)
 	switch algorithm {
 	case Algorithm_A128CBC, Algorithm_A192CBC, Algorithm_A256CBC,
